@@ -609,9 +609,15 @@ def withStatus (st : HStatus) (r : Resp) : Resp :=
   | .set c => { r with status := some c }
   | _ => r
 
-/-- a handler that returns `serve_file(path)` -/
+/-- the handler's own `response.headers['Content-Length'] = n` -/
+def withOwnCL (cl : Option Nat) (r : Resp) : Resp :=
+  match cl with
+  | some n => { r with hdrs := r.hdrs.set .contentLength (.nat n) }
+  | none => r
+
+/-- a handler that sets its headers and returns `serve_file(path)` -/
 def handlerStatic (pg : Pages) (rq : Req) (p : Plan) (b : Bytes) (r : Resp) : Out :=
-  match serveFile pg rq b (withStatus p.h.st r) with
+  match serveFile pg rq b (withStatus p.h.st (withOwnCL p.h.setCL r)) with
   | (r, some e) => (r, some e)
   | (r, none) =>
     -- the value returned is response.body itself (already prepared)
